@@ -22,6 +22,7 @@ func (g *FuncGen) execBlock(stmts []ast.Stmt, st *State) Flow {
 			break
 		}
 		f := g.execStmt(s, fl.next)
+		g.normalize(f.next)
 		fl.next = f.next
 		fl.brk = append(fl.brk, f.brk...)
 		fl.cont = append(fl.cont, f.cont...)
@@ -667,6 +668,7 @@ func (g *FuncGen) havoc(st *State, ws *writeSet, why string) {
 			srt = fs
 		}
 		st.heap[k] = g.fresh("hv_"+heapName(k), "(Array Int "+srt+")")
+		g.heapWF(k, st.heap[k], st.heap["$alloc"])
 	}
 	// allocation-only fields: existing objects keep their values
 	var ak []string
@@ -691,6 +693,7 @@ func (g *FuncGen) havoc(st *State, ws *writeSet, why string) {
 				nh := g.fresh("hv_"+heapName(k), "(Array Int "+srt+")")
 				g.emit(fmt.Sprintf("(assert (forall ((r Int)) (! (=> (select %s r) (= (select %s r) (select %s r))) :pattern ((select %s r)))))", pre.heap["$alloc"], nh, old, nh))
 				st.heap[k] = nh
+				g.heapWF(k, nh, st.heap["$alloc"])
 			}
 		}
 	}
@@ -908,4 +911,46 @@ func (g *FuncGen) execRange(x *ast.RangeStmt, st *State) Flow {
 	}
 	// range loops over slices and maps terminate by construction
 	return Flow{next: g.merge(append([]*State{exitSt}, fl.brk...))}
+}
+
+// normalize names compound heap and variable terms so later terms (and quantifier patterns) stay small.
+func (g *FuncGen) normalize(st *State) {
+	if st == nil {
+		return
+	}
+	var keys []string
+	for k, t := range st.heap {
+		if strings.HasPrefix(t, "(") {
+			keys = append(keys, k)
+		}
+	}
+	sort.Strings(keys)
+	for _, k := range keys {
+		srt := "(Array Int Bool)"
+		if k != "$alloc" {
+			srt = g.heapSort(k)
+		}
+		n := g.fresh(heapName(k), srt)
+		g.emit(fmt.Sprintf("(assert (= %s %s))", n, st.heap[k]))
+		st.heap[k] = n
+	}
+	var objs []types.Object
+	for o, v := range st.vars {
+		if strings.HasPrefix(v.T, "(") && (len(v.T) > 48 || strings.HasPrefix(v.S, "(Sq ")) {
+			objs = append(objs, o)
+		}
+	}
+	sort.Slice(objs, func(i, j int) bool {
+		if objs[i].Pos() != objs[j].Pos() {
+			return objs[i].Pos() < objs[j].Pos()
+		}
+		return objs[i].Name() < objs[j].Name()
+	})
+	for _, o := range objs {
+		v := st.vars[o]
+		n := g.fresh("v_"+o.Name(), v.S)
+		g.emit(fmt.Sprintf("(assert (= %s %s))", n, v.T))
+		g.typeFacts(st, n, v.Ty)
+		st.vars[o] = Val{n, v.Ty, v.S}
+	}
 }
